@@ -245,8 +245,51 @@ func literalFields(fn *ssa.Function, typeName string) map[string]string {
 		if !ok {
 			return
 		}
-		if n, ok := deref(fa.X.Type()).(*types.Named); ok && n.Obj().Name() == typeName {
+		n, ok := deref(fa.X.Type()).(*types.Named)
+		if ok && n.Obj().Name() != typeName && fn.Pkg != nil {
+			// a struct embedded in the type: its fields are the type's (promoted) fields
+			if outer := fn.Pkg.Pkg.Scope().Lookup(typeName); outer != nil {
+				if ost, isStruct := outer.Type().Underlying().(*types.Struct); isStruct {
+					emb := false
+					for i := 0; i < ost.NumFields(); i++ {
+						if ost.Field(i).Embedded() && types.Identical(deref(ost.Field(i).Type()), n) {
+							emb = true
+						}
+					}
+					if !emb {
+						ok = false
+					}
+				} else {
+					ok = false
+				}
+			} else {
+				ok = false
+			}
+		} else if ok && n.Obj().Name() != typeName {
+			ok = false
+		}
+		if ok {
 			out[fieldName(n, fa.Field)] = exprStr(st.Val)
+			// ds.Range{Start: a, End: b} written out instead of *ds.NewRange(a, b)
+			if u, ok := st.Val.(*ssa.UnOp); ok && u.Op == token.MUL {
+				if lit, ok := u.X.(*ssa.Alloc); ok {
+					if rn, ok := deref(lit.Type()).(*types.Named); ok && rn.Obj().Name() == "Range" {
+						parts := map[string]string{}
+						for _, ref := range *lit.Referrers() {
+							if f2, ok := ref.(*ssa.FieldAddr); ok {
+								for _, r2 := range *f2.Referrers() {
+									if s2, ok := r2.(*ssa.Store); ok && s2.Addr == ssa.Value(f2) {
+										parts[fieldName(rn, f2.Field)] = exprStr(s2.Val)
+									}
+								}
+							}
+						}
+						if parts["Start"] != "" && parts["End"] != "" {
+							out[fieldName(n, fa.Field)] = "NewRange(" + parts["Start"] + ", " + parts["End"] + ")"
+						}
+					}
+				}
+			}
 		}
 	})
 	return out
@@ -533,7 +576,38 @@ func rulePerMatchReplacer(c *Ctx, rule string) {
 			}
 		}
 	}
-	ob2.Check(okApp, "append(replacedMatches, current_state.match)", "the value appended to the result is not the replacer state's match")
+	// result[n] = state.match
+	var others []string
+	if !okApp {
+		mT := c.NamedType("engine", "Match")
+		instrsOf(sr, func(in ssa.Instruction) {
+			st, ok := in.(*ssa.Store)
+			if !ok || mT == nil || !types.Identical(st.Val.Type(), mT) {
+				return
+			}
+			ia, ok := st.Addr.(*ssa.IndexAddr)
+			if !ok {
+				return
+			}
+			if _, isLit := ia.X.(*ssa.Alloc); isLit {
+				others = append(others, exprStr(st.Val)) // the variadic argument of an append, examined above
+				return
+			}
+			if strings.HasSuffix(exprStr(st.Val), ".match") {
+				okApp = true
+			} else {
+				others = append(others, exprStr(st.Val))
+			}
+		})
+	}
+	switch {
+	case okApp:
+		ob2.OKnt("the replacer state's match is what goes into the result")
+	case len(others) > 0:
+		ob2.Bad("the value put into the result (" + strings.Join(uniq(others), ", ") + ") is not the replacer state's match")
+	default:
+		ob2.Und("no place was found where " + sr.Name() + " puts a match into its result")
+	}
 	// the initial state's variables are a deep copy of the match's variables plus the built-ins: nothing is carried over from another match
 	if init == nil {
 		return
